@@ -152,6 +152,19 @@ func ExecSched(sc sim.Script) *sim.Outcome {
 		}
 	}
 	nt := len(s.Tasks)
+	// what every successful write made the root, and what every save wrote where (judged in SaveJudge runs)
+	type rootRec struct {
+		call, ret int64
+		root      util.Key
+	}
+	type saveRec struct {
+		call, ret int64
+		target    *util.MemoryNodeDB
+		kind      string
+	}
+	rootsOf := make([][]rootRec, nt)
+	savesOf := make([][]saveRec, nt)
+	initialRoot := append(util.Key{}, t.mpt.GetRoot()...)
 	hist := make([][]porcupine.Operation, nt)
 	counts := make([][]int, nt)             // per task: results of GetChangeCount
 	missingSeen := make([]string, nt)       // per task: a complaint about nodes reported absent on a store that lost none
@@ -183,14 +196,18 @@ func ExecSched(sc sim.Script) *sim.Outcome {
 					}
 				case "ins":
 					in = hin{op: "ins", k: op.P, v: string(op.V)}
-					_, err := t.mpt.Insert(util.Path(op.P), val(op.V))
+					nr, err := t.mpt.Insert(util.Path(op.P), val(op.V))
 					out = hout{err: err != nil}
+					if err == nil {
+						rootsOf[ti] = append(rootsOf[ti], rootRec{call, simrt.Stamp(), append(util.Key{}, nr...)})
+					}
 				case "del":
 					in = hin{op: "del", k: op.P}
-					_, err := t.mpt.Delete(util.Path(op.P))
+					nr, err := t.mpt.Delete(util.Path(op.P))
 					switch err {
 					case nil:
 						out = hout{found: true}
+						rootsOf[ti] = append(rootsOf[ti], rootRec{call, simrt.Stamp(), append(util.Key{}, nr...)})
 					case util.ErrValueNotPresent:
 						out = hout{}
 					default:
@@ -250,24 +267,24 @@ func ExecSched(sc sim.Script) *sim.Outcome {
 				case "hasmissing":
 					record = false
 					t.mpt.HasMissingNodes(context.Background())
-				case "save":
+				case "save", "savecancel":
+					// "savecancel": a save abandoned by its caller (context already cancelled). SaveChanges returns while
+					// its writer goroutine - a scheduled task of its own in the instrumented copy (simrt.Go) - still
+					// has to write the collected changes; the caller goes on changing the trie.
 					record = false
-					t.mpt.SaveChanges(context.Background(), saveDB, false)
-				case "savecancel":
-					// a save abandoned by its caller (context already cancelled): SaveChanges returns while its
-					// writer goroutine still works on the collected changes; the task waits for that goroutine
-					// through a channel the race detector cannot see, then goes on changing the trie
-					record = false
-					ctx, cancel := context.WithCancel(context.Background())
-					cancel()
-					// The writer goroutine is held at its store call until SaveChanges has returned: otherwise Go's
-					// select could find "done" ready as well and pick either branch (they differ in scheduling points).
-					gate, done := simrt.NewOpaque(), simrt.NewOpaque()
-					t.mpt.SaveChanges(ctx, &signalDB{NodeDB: saveDB, gate: gate, done: done}, false)
-					gate.Signal()
-					done.Wait()
-					gate.Close()
-					done.Close()
+					ctx := context.Background()
+					if op.K == "savecancel" {
+						c2, cancel := context.WithCancel(ctx)
+						cancel()
+						ctx = c2
+					}
+					if s.SaveJudge {
+						target := util.NewMemoryNodeDB()
+						t.mpt.SaveChanges(ctx, target, false)
+						savesOf[ti] = append(savesOf[ti], saveRec{call, simrt.Stamp(), target, op.K})
+					} else {
+						t.mpt.SaveChanges(ctx, saveDB, false)
+					}
 				case "root":
 					record = false
 					t.mpt.GetRoot()
@@ -335,6 +352,51 @@ func ExecSched(sc sim.Script) *sim.Outcome {
 			}
 		}
 		w.stats.Inc("check.change-count")
+	}
+	if s.SaveJudge && !lossy {
+		// What a save writes is the change set of a state the trie was in during the call: the nodes it put into
+		// its (private, empty) target must make up the complete trie of a root that was current at some moment
+		// between the save's call and its return - also when the caller had given up waiting (cancelled context)
+		// and the writer finished later, after other writes.  A root produced by write i can have been current
+		// during [call, ret] only if i was called before ret and no other write began after i returned and
+		// returned before call.
+		all := []rootRec{{0, 0, initialRoot}}
+		for _, rs := range rootsOf {
+			all = append(all, rs...)
+		}
+		for ti, svs := range savesOf {
+			for _, sv := range svs {
+				ok := false
+				var tried []string
+				for i, wi := range all {
+					if wi.call > sv.ret {
+						continue
+					}
+					dead := false
+					for j, wj := range all {
+						if j != i && wj.call > wi.ret && wj.ret < sv.call {
+							dead = true
+						}
+					}
+					if dead {
+						continue
+					}
+					tried = append(tried, fmt.Sprintf("%x", wi.root))
+					if len(wi.root) == 0 {
+						ok = true
+						break
+					}
+					if _, _, err := content(util.NewMerklePatriciaTrie(sv.target, util.Sequence(t.ver), wi.root, statecache.NewEmpty())); err == nil {
+						ok = true
+						break
+					}
+				}
+				w.stats.Inc("check.saved-state-of-the-call")
+				if !ok && w.v == nil {
+					w.fail("c16.save", sv.kind+":saved-nodes-of-no-state-during-the-call", "task %d: %s called at %d, returned at %d: the %d nodes it wrote do not make up the trie of any root that was current during the call (tried %v)", ti, sv.kind, sv.call, sv.ret, sv.target.Size(context.Background()), tried)
+				}
+			}
+		}
 	}
 	var all []porcupine.Operation
 	nmut := 0
@@ -499,18 +561,6 @@ func (o *orderedDB) Iterate(ctx context.Context, handler util.NodeDBIteratorHand
 }
 
 // signalDB tells the waiting task when SaveChanges' writer goroutine has delivered its batch.
-type signalDB struct {
-	util.NodeDB
-	gate, done *simrt.Opaque
-}
-
-func (s *signalDB) MultiPutNode(keys []util.Key, nodes []util.Node) error {
-	s.gate.Wait()
-	err := s.NodeDB.MultiPutNode(keys, nodes)
-	s.done.Signal()
-	return err
-}
-
 func finishSched(w *world, res *sched.Result) *sim.Outcome {
 	o := &sim.Outcome{V: w.v, Stats: w.stats, Digest: w.log.Digest()}
 	for k := range w.states {
